@@ -41,7 +41,11 @@ BOXSIZE = Tup(Int, Int)
 
 def part_widget(s, part):
     """The widget stored for `part` (an Opt value for header/footer)."""
-    return {"header": s._header, "body": s._body, "footer": s._footer}[part]
+    if part == "header":
+        return s._header
+    if part == "footer":
+        return s._footer
+    return s._body
 
 
 def has_part(s, part):
@@ -110,3 +114,232 @@ def frame_geometry(s, size, focus):
     """(htrim, ftrim) of the shared geometry."""
     (htrim, ftrim), _ = FTB.spec_value(s, size=size, focus=focus)
     return htrim, ftrim
+
+
+# ------------------------------------------------------------------------------------------------ helpers (assumed)
+if "urwid/util.py:is_mouse_press" not in REGISTRY:
+
+    @contract("urwid/util.py:is_mouse_press", property=(), assumed=True, deterministic=True,
+              notes="`ev.find('press') >= 0` on the event name: a pure predicate of the (opaque) event string; str.find is outside the opaque Key model")
+    class is_mouse_press:
+        params = dict(ev=Opaque("Key"))
+        result = Bool
+
+
+def mouse_press(event):
+    return REGISTRY["urwid/util.py:is_mouse_press"].spec_value(None, ev=event)
+
+
+# ------------------------------------------------------------------------------------------------ C08: focus position
+@contract(FR + "Frame.focus_position", property="C08", inline=FINL, replayable=False)
+class frame_fp_get:
+    self_shape = FRAME
+    result = Enum(*PARTS)
+    invariant = staticmethod(frame_inv)
+    raises = ()
+
+    def ensures(old, s, a, result):
+        yield "is-the-focus-part", eq(result, old.focus_part)
+        yield "a-part-that-exists", neg(is_none(part_widget(old, result)))
+        yield "frame", eq(s.focus_part, old.focus_part)
+
+    def pure_spec(old, a):
+        return old.focus_part
+
+
+def _invalid_part(s, part):
+    if part == "junk":
+        return True
+    return is_none(part_widget(s, part))
+
+
+@contract(FR + "Frame.focus_position.setter", property="C08", inline=FINL, replayable=False)
+class frame_fp_set:
+    self_shape = FRAME
+    params = dict(part=Enum("header", "body", "footer", "junk"))
+    invariant = staticmethod(frame_inv)
+    raises = (IndexError,)
+    modifies = ("focus_part",)
+    raises_iff = {IndexError: lambda s, a: _invalid_part(s, a.part)}
+
+    def ensures(old, s, a, result):
+        yield "was-a-part-that-exists", neg(_invalid_part(old, a.part))
+        # the statement's "valid position" is a key of .contents (what contents[...], __iter__ and get_focus_path go by)
+        # FAILS-ON-TREE: Frame(SolidFill(), header=Pile([])).focus_position = 'header' is accepted although
+        #   'header' is not a key of .contents (empty containers are falsy; _contents_keys tests truthiness, the setter `is None`)
+        yield "position-is-a-key-of-contents", has_part(old, a.part)
+        yield "focus-is-that-part", eq(s.focus_part, a.part)
+        yield "invalidated-once", count_ev(s.trace, "_invalidate") == 1
+        yield "children-untouched", both(opt_same(s._header, old._header), opt_same(s._footer, old._footer), eq(s._body, old._body))
+
+    def on_raise(old, s, a, exc):
+        yield "only-for-a-part-that-does-not-exist", _invalid_part(old, a.part)
+        yield "nothing-written", both(eq(s.focus_part, old.focus_part), count_ev(s.trace, "_invalidate") == 0, len([e for e in cur().trace if e[0] == "write"]) == 0)
+
+    def effects(old, s, a, result):
+        s.fields["focus_part"] = a.part
+
+
+# ------------------------------------------------------------------------------------------------ C09 entry points
+def _frame_requires(s, a, focus):
+    return both(size_ok(a.size), frame_fit(s, a.size, focus))
+
+
+def part_size(part, size, htrim, ftrim):
+    maxcol, maxrow = size
+    if part == "body":
+        return (maxcol, maxrow - htrim - ftrim)
+    return (maxcol,)
+
+
+def part_top(part, size, htrim, ftrim):
+    if part == "header":
+        return 0
+    if part == "body":
+        return htrim
+    return size[1] - ftrim
+
+
+@contract(FR + "Frame.keypress", property=("C09", "C08"), inline=FINL, replayable=False)
+class frame_keypress:
+    self_shape = FRAME
+    params = dict(size=BOXSIZE, key=Opaque("Key"))
+    result = Opt(Opaque("Key"))
+    invariant = staticmethod(frame_inv)
+    raises = ()
+
+    def requires(s, a):
+        return _frame_requires(s, a, True)
+
+    def ensures(old, s, a, result):
+        W = PROTOCOLS["Widget"]
+        fp = old.focus_part
+        w = val(part_widget(old, fp)) if fp != "body" else old._body
+        htrim, ftrim = frame_geometry(old, a.size, True)
+        kp = calls("keypress")
+        yield "offered-to-no-one-but-the-focus-part", both(len(kp) <= 1, eq(kp[0][1], w) if kp else True)
+        if not W.call_quiet(cur(), w, "selectable", {}):
+            yield "not-offered-to-an-unselectable-part", both(len(kp) == 0, opt_same(result, a.key))
+            return
+        # FAILS-ON-TREE (same root cause as the size clause below): Frame(body, footer=GridFlow([], 3, 1, 0, 'left')) at
+        #   (5, 1): render draws the body on the one row, keypress((5, 1), k) returns k without offering it to the body
+        yield "offered-once", len(kp) == 1
+        if kp:
+            # FAILS-ON-TREE (body focus, header not None but falsy): Frame(body, header=GridFlow([], 3, 1, 0, 'left')):
+            #   render((5, 4)) draws the body at (5, 4) (frame_top_bottom skips a falsy header), keypress((5, 4), k) offers
+            #   the key with (5, 3) (keypress tests `is not None` and subtracts the header's rows() == 1)
+            yield "with-the-size-render-uses", eq(kp[0][3]["size"], part_size(fp, a.size, htrim, ftrim))
+            yield "the-key-itself", eq(kp[0][3]["key"], a.key)
+            yield "result-is-the-parts", opt_same(result, kp[0][4])
+        yield "focus-unchanged", eq(s.focus_part, old.focus_part)
+
+
+def part_at_row(row, size, htrim, ftrim):
+    """The part whose drawn rows contain `row` (shared geometry)."""
+    if row < htrim:
+        return "header"
+    if row >= size[1] - ftrim:
+        return "footer"
+    return "body"
+
+
+@contract(FR + "Frame.mouse_event", property=("C09", "C08"), inline=FINL, replayable=False)
+class frame_mouse:
+    self_shape = FRAME
+    params = dict(size=BOXSIZE, event=Opaque("Key"), button=Int, col=Int, row=Int, focus=Bool)
+    result = Bool
+    invariant = staticmethod(frame_inv)
+    raises = ()
+
+    def requires(s, a):
+        return both(_frame_requires(s, a, a.focus), 0 <= a.col, a.col < a.size[0], 0 <= a.row, a.row < a.size[1])
+
+    def ensures(old, s, a, result):
+        W = PROTOCOLS["Widget"]
+        htrim, ftrim = frame_geometry(old, a.size, a.focus)
+        part = part_at_row(a.row, a.size, htrim, ftrim)
+        w = val(part_widget(old, part)) if part != "body" else old._body
+        me = calls("mouse_event")
+        yield "delivered-to-no-one-but-the-part-drawn-there", both(len(me) <= 1, eq(me[0][1], w) if me else True)
+        # C08: a button-1 press on a selectable part moves the focus there; nothing else does
+        press = both(mouse_press(a.event), a.button == 1, W.call_quiet(cur(), w, "selectable", {}))
+        if press:
+            yield "press-focuses-the-part-clicked", eq(s.focus_part, part)
+        else:
+            yield "focus-unchanged", eq(s.focus_part, old.focus_part)
+        if not W.hasattr(None, cur(), w, "mouse_event"):
+            yield "no-handler", both(len(me) == 0, result == False)  # noqa: E712
+            return
+        yield "delivered-once", len(me) == 1
+        if me:
+            v = me[0][3]
+            yield "part-relative-coordinates", both(eq(v["size"], part_size(part, a.size, htrim, ftrim)), v["col"] == a.col, v["row"] == a.row - part_top(part, a.size, htrim, ftrim))
+            yield "event-and-button-unchanged", both(v["button"] == a.button, eq(v["event"], a.event))
+            yield "focus-flag-is-focus-and-was-the-focus-part", eq(v["focus"], both(a.focus, old.focus_part == part))
+            yield "result-is-the-parts", eq(result, me[0][4])
+
+
+@contract(FR + "Frame.get_cursor_coords", property="C09", inline=FINL, replayable=False)
+class frame_gcc:
+    self_shape = FRAME
+    params = dict(size=BOXSIZE)
+    result = Opt(Tup(Int, Int))
+    invariant = staticmethod(frame_inv)
+    raises = ()
+
+    def requires(s, a):
+        return _frame_requires(s, a, True)
+
+    def ensures(old, s, a, result):
+        W = PROTOCOLS["Widget"]
+        fp = old.focus_part
+        w = val(part_widget(old, fp)) if fp != "body" else old._body
+        if not W.call_quiet(cur(), w, "selectable", {}):
+            yield "unselectable-focus-part-has-no-cursor", is_none(result)
+            return
+        if not W.hasattr(None, cur(), w, "get_cursor_coords"):
+            yield "no-cursor-protocol", is_none(result)
+            return
+        htrim, ftrim = frame_geometry(old, a.size, True)
+        cc = W.call_quiet(cur(), w, "get_cursor_coords", dict(size=part_size(fp, a.size, htrim, ftrim)))
+        yield "focus-parts-cursor-shifted-by-its-top-row", opt_eq_shift(result, cc, 0, part_top(fp, a.size, htrim, ftrim))
+        yield "frame", eq(s.focus_part, old.focus_part)
+
+
+@contract(FR + "Frame.render", property=("C09", "C01", "C08"), inline=FINL, replayable=False)
+class frame_render:
+    self_shape = FRAME
+    params = dict(size=BOXSIZE, focus=Bool)
+    result = CCANVAS
+    invariant = staticmethod(frame_inv)
+    raises = ()
+
+    def requires(s, a):
+        return both(_frame_requires(s, a, a.focus), a.size[0] >= 1)
+
+    def ensures(old, s, a, r):
+        W = PROTOCOLS["Widget"]
+        maxcol, maxrow = a.size
+        htrim, ftrim = frame_geometry(old, a.size, a.focus)
+        yield "size", both(r.ncols == maxcol, r.nrows == maxrow)
+        rc = calls("render")
+        fp = old.focus_part
+        # the parts that have rows are rendered top to bottom, each once, at its size of the shared geometry, and
+        # (C08) only the focus part with focus
+        want = []
+        for part in PARTS:
+            shown = (maxrow - htrim - ftrim if part == "body" else htrim if part == "header" else ftrim) > 0
+            if shown:
+                want.append(part)
+        yield "one-rendering-per-part-that-has-rows", len(rc) == len(want)
+        for c, part in zip(rc, want):
+            w = val(part_widget(old, part)) if part != "body" else old._body
+            yield f"{part}-rendered-at-its-size", both(eq(c[1], w), eq(c[3]["size"], part_size(part, a.size, htrim, ftrim)))
+            yield f"{part}-focus-flag", eq(c[3]["focus"], both(a.focus, fp == part))
+        w = val(part_widget(old, fp)) if fp != "body" else old._body
+        child = W.call_quiet(cur(), w, "render", dict(size=part_size(fp, a.size, htrim, ftrim), focus=a.focus))
+        # (unfocused parts are rendered with focus=False: no cursor, by the widget protocol)
+        if fp not in want:
+            yield "a-focus-part-without-rows-shows-no-cursor", is_none(r.cursor)
+        else:
+            yield "cursor-is-the-focus-parts-shifted-by-its-top-row", opt_eq_shift(r.cursor, child.cursor, 0, part_top(fp, a.size, htrim, ftrim))
